@@ -64,6 +64,10 @@ RAW_SCRIPTS = {
                                       "    while i < len(xs) - 3:\n        i += 1\n    return i\ndef drop_first(xs):\n    if len(xs) - 1 >= 0:\n        return xs[0]\n    return 0\n"
                                       "while True:\n    mon.write(pairs(q))\n    q.remove(drop_first(q))\n    mon.write(pairs(q) + steps(q))\n    q.remove(drop_first(q))\n    mon.write(pairs(q) + steps(q))\n"
                                       "    q.remove(drop_first(q))\n    mon.write(pairs(q) + steps(q))\n    q.append(8)\n    q.append(7)\n    q.append(6)\n",
+    # an already declared list is re-assigned from a list whose length the parser tracks as equal, although at run time it is longer
+    # (an append in a branch that is not taken is counted all the same): the re-assigned name holds all of the source's elements
+    "raw-reassign-after-untaken-append": "a = [1, 2, 3]\nb = [4, 5, 6, 7]\nn = 0\nwhile True:\n    if n > 1000:\n        a.append(n)\n    a = b\n    mon.write(a[3] + a[0])\n    mon.write(len(b))\n",
+    "raw-reassign-literal-after-untaken-remove": "c = [1, 2, 3, 4]\nn = 0\nwhile True:\n    if n > 1000:\n        c.remove(4)\n    c = [9, 8, 7]\n    mon.write(c[2] + c[0])\n    c = [1, 2, 3]\n    mon.write(c[1])\n",
     # a helper builds a local list from constants on EVERY call and changes it (a fresh list each time, as in Python)
     "raw-helper-local-literal-mutated": "def tail(v):\n    w = [5, 7, 9]\n    w.remove(w[0])\n    return w[1] + v\ndef grow(v):\n    g = [1, 2]\n    g.append(v)\n    return g[2] + g[0]\n"
                                         "def table(k):\n    t = [10, 20, 30]\n    return t[k]\nwhile True:\n    mon.write(tail(1))\n    mon.write(grow(4))\n    mon.write(tail(2) + table(2))\n    mon.write(grow(6))\n",
